@@ -192,6 +192,25 @@ pub fn record_keys(args: &Args, mut out: Out) -> usize {
             pool.push(ids);
         }
     }
+    // neighbours back to back: a hand, then the same hand with one card exchanged, evaluated consecutively on this thread
+    // (every replacement card for a few positions; the same-suit card 8 ranks away and the same rank in another suit for all)
+    for _ in 0..(args.num("neighbours", 150) as usize) {
+        let base = rng.distinct(7, 52);
+        for j in 0..7 {
+            let mut cands: Vec<usize> = vec![(base[j] + 32) % 64, (base[j] + 20) % 52, 4 * (base[j] / 4) + (base[j] + 1) % 4];
+            if j < 2 {
+                cands.extend(0..52);
+            }
+            for c in cands {
+                if c < 52 && !base.contains(&c) {
+                    let mut h = base.clone();
+                    h[j] = c;
+                    eval_event(&base, &mut out);
+                    eval_event(&h, &mut out);
+                }
+            }
+        }
+    }
     // comparisons: random pairs, suit-relabelled copies (exact ties), one-card changes (near neighbours)
     for i in 0..ncmp {
         let a = pool[rng.usize(pool.len())].clone();
@@ -266,7 +285,8 @@ struct Part {
     ty_mismatch: u64,
     hist: [u64; 9],
     seen: Vec<bool>,
-    bad: Vec<Vec<usize>>,
+    // mismatching hands with what was OBSERVED in the sweep (a state-dependent defect may not reproduce on a second call)
+    bad: Vec<(Vec<usize>, u16, String)>,
 }
 
 /// permutation number p of 0..6 applied to ids (p = 0: as enumerated; 1: reversed; else pseudo-random by mixing)
@@ -370,7 +390,7 @@ pub fn sweep(args: &Args, mut out: Out) -> usize {
                                             }
                                         }
                                         if bad && p.bad.len() < 64 {
-                                            p.bad.push(q.to_vec());
+                                            p.bad.push((q.to_vec(), h.power_index(), format!("{:?}", h.hand_type())));
                                         }
                                     }
                                 }
@@ -401,8 +421,12 @@ pub fn sweep(args: &Args, mut out: Out) -> usize {
     tot.bad.truncate(maxbad);
     // mismatching hands become ordinary eval events: the verdict on them is TLC's, not the sweep's
     let mut mm = Out::new(args.get("mismatch"));
-    for b in &tot.bad {
-        eval_event(b, &mut mm);
+    for (ids, idx, ty) in &tot.bad {
+        let (fl, key) = key_of(ids);
+        mm.line(&format!(
+            "{{\"op\":\"eval\",\"cards\":{},\"idx\":{},\"ty\":\"{}\",\"fl\":{},\"key\":{},\"observed_in\":\"sweep\"}}",
+            list(ids), idx, ty, fl, list(&key)
+        ));
     }
     mm.finish();
     let reach = tot.seen.iter().filter(|x| **x).count();
